@@ -444,6 +444,20 @@ def _legacy(c, prog):
         if rows2 == {("arg2.1", (("(arg2.0 Eq ^arg3)", "true"),)), ("<transaction::TxOut as std::default::Default>::default()", (("(arg2.0 Eq ^arg3)", "false"),))}:
             okc = True
     c.inst("R3.legacy.single-erases-others", "SINGLE: outputs before the index are replaced by TxOut::default()", okc, detail, f.where(), f.path)
+    # ... and TxOut::default() is the *null* output of the reference (CTxOut::SetNull: asset, value and nonce all null, empty
+    # script — it serializes as 00 00 00 00): each field default resolved down to its variant
+    fd = prog.fn("<transaction::TxOut as std::default::Default>::default")
+    td = re.sub(r"@[\w]*#\d+", "", show(Prov(fd.body).local(0), -30))
+    parts = {}
+    for ty in ("Asset", "Value", "Nonce"):
+        fq = "<confidential::%s as std::default::Default>::default" % ty
+        parts[ty] = re.sub(r"@[\w]*#\d+", "", show(Prov(prog.fn(fq).body).local(0), -9)) if prog.has_fn(fq) else "?"
+    flat_td = td
+    for ty in ("Asset", "Value", "Nonce"):
+        flat_td = flat_td.replace("<confidential::%s as std::default::Default>::default()" % ty, parts[ty])
+    okd = (flat_td.startswith("transaction::TxOut::TxOut{confidential::Asset::Null{}, confidential::Value::Null{}, confidential::Nonce::Null{}, ")
+           and re.search(r", (<script::Script as std::default::Default>::default\(\)|script::Script::new\(\)), ", flat_td) is not None)
+    c.inst("R3.legacy.null-output", "TxOut::default() = null asset, null value, null nonce, empty script", okd, "default() returns %s" % flat_td[:260], fd.where(), fd.path)
 
 
 # ------------------------------------------------------------------ caches, flags, tags
